@@ -243,6 +243,13 @@ theorem allGe_forall2 : ∀ (l r : List Rat), l.length = r.length → allGe l r 
     simp only [allGe, List.zipWith_cons_cons, List.all_cons, Bool.and_eq_true, id, decide_eq_true_eq] at hg
     exact .cons hg.1 (allGe_forall2 l r (by simpa using h) (by simpa [allGe] using hg.2))
 
+theorem allGe_of_forall2 : ∀ {l r : List Rat}, List.Forall₂ (· ≤ ·) r l → allGe l r = true
+  | _, _, .nil => rfl
+  | _, _, .cons h t => by
+    have := allGe_of_forall2 t
+    simp only [allGe] at this
+    simp [allGe, h, this]
+
 theorem allGe_self (l : List Rat) : allGe l l = true := by
   induction l with
   | nil => rfl
